@@ -25,6 +25,7 @@ Step(A, name) == A /\ hist' = Append(hist, St(name))
 Init == T!Init /\ hist = <<>>
 Next == /\ Len(hist) < Depth
         /\ \/ Step(T!Start, "Start") \/ Step(T!SessWrite, "SessWrite") \/ Step(T!SessRead, "SessRead")
+           \/ (work # None /\ UNCHANGED <<cat, work, snaps, seenPlain, seenSess, next>> /\ hist' = Append(hist, St("SessNoop")))
            \/ Step(T!Commit(TRUE), "CommitOK") \/ Step(T!Commit(FALSE), "CommitFail") \/ Step(T!Abort, "Abort")
            \/ Step(T!PlainRead, "PlainRead") \/ Step(T!PlainWrite, "PlainWrite") \/ Step(T!TakeSnapshot, "TakeSnapshot")
 Spec == Init /\ [][Next]_<<cat, work, snaps, seenPlain, seenSess, next, hist>>
